@@ -311,9 +311,8 @@ class Contract:
             N = len(bytecode)
             while pc < N:
                 try:
-                    opcode = bytecode[pc]
-                    if type(opcode) is not int:
-                        raise NotConcreteError(f"symbolic opcode at pc={pc}")
+                    # same concreteness test as _decode_instruction()
+                    opcode = int_of(bytecode[pc], f"symbolic opcode at pc={pc}")
 
                     if opcode == OP_JUMPDEST:
                         jumpdests.add(pc)
